@@ -180,6 +180,13 @@ def mat_container(kind, base):
         return tuple(base), int
     if kind == 'floatlist':
         return [float(b) for b in base], float
+    if kind == 'mixed':                      # R10: elements of different python / numpy types in ONE list
+        ts = [int, float, np.int16, np.float32, np.int64, np.float64, np.uint8, complex]
+        return [(ts[j % len(ts)] if not (ts[j % len(ts)] is np.uint8 and b < 0) else int)(b)
+                for j, b in enumerate(base)], float
+    if kind == 'mixedtuple':
+        ts = [np.float32, int, np.int8, float]
+        return tuple(ts[j % len(ts)](b) for j, b in enumerate(base)), int
     if kind == 'none':                       # R5: None among the values (stands for the smallest one)
         lo = min(base) if base else None
         return [None if b == lo else b for b in base], (lambda b: None if b == lo else b)
@@ -269,6 +276,14 @@ class Mat:
         self.elemfn = {}
         self.kind = {}
         self.inputs = []          # R3: (what, object handed to the library, snapshot at that time)
+        self.af = case.get('argform')   # R8: seed of the argument-form choices (None: the plain form)
+
+    def pick(self, n):
+        """R8: which of the n equivalent ways to make the next call (positional / keyword / default / ...)"""
+        if self.af is None:
+            return 0
+        self.af = (self.af * 1103515245 + 12345) % (1 << 31)
+        return (self.af >> 8) % n
 
     # parameters ---------------------------------------------------------
     def container(self, name, base, kind=None):
@@ -325,7 +340,16 @@ class Mat:
             return i
         if self.ik == 'str':
             return str(i)
-        return np.dtype(self.ik[3:]).type(i)
+        if self.ik == '0d':
+            return np.array(i)
+        if self.ik == 'bool':
+            return bool(i) if i in (0, 1) else i
+        dt = np.dtype(self.ik[3:])
+        if dt.kind == 'u' and i < 0:
+            return i
+        if not (np.iinfo(dt).min <= i <= np.iinfo(dt).max):
+            return np.int64(i)
+        return dt.type(i)
 
     # outcomes -----------------------------------------------------------
     def out(self, o):
@@ -337,6 +361,11 @@ class Mat:
             return float(o)
         if k.startswith('np.'):
             return np.dtype(k[3:]).type(o)
+        if k == 'mixhalf':
+            self._mix = getattr(self, '_mix', 0) + 1
+            if o % 2 == 0:
+                return [int, np.int16, np.int64][self._mix % 3](o // 2)
+            return [float, np.float32, np.float64][self._mix % 3](o / 2.0)
         if k.startswith('p2:'):
             return float(o) * 2.0 ** int(k[3:])
         if k.startswith('dec:'):
@@ -345,6 +374,8 @@ class Mat:
 
     def _scale(self):
         k = self.ok
+        if k == 'mixhalf':
+            return Fraction(1, 2)
         if k.startswith('p2:'):
             return Fraction(2) ** int(k[3:])
         if k.startswith('dec:'):
@@ -444,39 +475,66 @@ def x_update(ty, a, j):
     return (abs(a) + j) % 4, None
 
 
-def build_extras(res, case, a):
+def build_extras(res, case, a, mat=None, callno=0):
     """adds the extra results of one repetition to the SimulationResults `res`, through the construction
-    form of each spec: constructor + update / Result.create / add_new_result"""
+    form of each spec: constructor + update / Result.create / add_new_result; R8: arguments positional or
+    by keyword; R12: the results are added in an order that changes from repetition to repetition"""
     from pyphysim.simulations.results import Result
     np = _np()
+    mat = mat or Mat({})
     code = {'S': Result.SUMTYPE, 'R': Result.RATIOTYPE, 'M': Result.MISCTYPE, 'C': Result.CHOICETYPE}
     conv = {'int': int, 'np.int64': np.int64, 'np.int16': np.int16}[case.get('xtype', 'int')]
-    for i, (ty, acc, k, form) in enumerate(xr_specs(case)):
+    order = list(enumerate(xr_specs(case)))
+    if case.get('xorder') is not None and order:
+        sh = (case['xorder'] + 7 * callno) % len(order)
+        order = order[sh:] + order[:sh]
+        if (case['xorder'] + callno) % 2:
+            order.reverse()
+    for i, (ty, acc, k, form) in order:
         name = 'x%d' % i
         ups = [x_update(ty, a, j) for j in range(k)]
+        cn = 4 if ty == 'C' else None
 
         def upd(r, v, t):
+            kw = mat.pick(2)
             if t is None:
-                r.update(conv(v))
+                r.update(conv(v)) if kw == 0 else r.update(value=conv(v))
             else:
-                r.update(conv(v), conv(t))
+                r.update(conv(v), conv(t)) if kw == 0 else r.update(value=conv(v), total=conv(t))
         if form == 'create' and k >= 1:
             v0, t0 = ups[0]
-            r = Result.create(name, code[ty], conv(v0), 4 if ty == 'C' else (conv(t0) if t0 is not None else 0),
-                              accumulate_values=acc)
+            tot = 4 if ty == 'C' else (conv(t0) if t0 is not None else 0)
+            kw = mat.pick(3)
+            if kw == 0:
+                r = Result.create(name, code[ty], conv(v0), tot, accumulate_values=acc)
+            elif kw == 1:
+                r = Result.create(name=name, update_type=code[ty], value=conv(v0), total=tot, accumulate_values=acc)
+            else:
+                r = Result.create(name, code[ty], conv(v0), tot, acc)
             for v, t in ups[1:]:
                 upd(r, v, t)
             res.add_result(r)
         elif form == 'addnew' and k >= 1 and not acc:
             v0, t0 = ups[0]
-            res.add_new_result(name, code[ty], conv(v0), 4 if ty == 'C' else (conv(t0) if t0 is not None else 0))
+            tot = 4 if ty == 'C' else (conv(t0) if t0 is not None else 0)
+            if mat.pick(2) == 0:
+                res.add_new_result(name, code[ty], conv(v0), tot)
+            else:
+                res.add_new_result(name=name, update_type=code[ty], value=conv(v0), total=tot)
             for v, t in ups[1:]:
                 upd(res[name][-1], v, t)
         else:
-            r = Result(name, code[ty], accumulate_values=acc, choice_num=4 if ty == 'C' else None)
+            kw = mat.pick(3)
+            if kw == 0:
+                r = Result(name, code[ty], accumulate_values=acc, choice_num=cn)
+            elif kw == 1:
+                r = Result(name, code[ty], acc, cn)
+            else:
+                r = Result(name=name, update_type_code=code[ty], accumulate_values=acc, choice_num=cn) \
+                    if (acc or cn) else (Result(name, code[ty]) if ty != 'C' else Result(name, code[ty], False, cn))
             for v, t in ups:
                 upd(r, v, t)
-            res.add_result(r)
+            res.add_result(r) if mat.pick(2) == 0 else res.add_result(result=r)
 
 
 def _frac(x):
@@ -571,14 +629,69 @@ def _reps(x):
     return 'S:%d' % int(x)
 
 
+def call_simulate(runner, op):
+    mat = runner.mat
+    if op == 'all':
+        k = mat.pick(3)
+        return runner.simulate() if k == 0 else runner.simulate(None) if k == 1 \
+            else runner.simulate(param_variation_index=None)
+    i = mat.index(int(op.split(':')[1]))
+    return runner.simulate(i) if mat.pick(2) == 0 else runner.simulate(param_variation_index=i)
+
+
+def call_values(res, mfx, mat, raw_empty=False):
+    k = mat.pick(3)
+    if not mfx and raw_empty:
+        return res.get_result_values_list('tok') if k == 0 else res.get_result_values_list('tok', None) \
+            if k == 1 else res.get_result_values_list(result_name='tok', fixed_params={})
+    return res.get_result_values_list('tok', mfx) if k == 0 else \
+        res.get_result_values_list('tok', fixed_params=mfx) if k == 1 else \
+        res.get_result_values_list(result_name='tok', fixed_params=mfx)
+
+
+def call_pack(p, mfx, mat):
+    return p.get_pack_indexes(mfx) if mat.pick(2) == 0 else p.get_pack_indexes(fixed_params_dict=mfx)
+
+
+def call_add(p, name, value, mat):
+    k = mat.pick(3)
+    if k == 0:
+        p.add(name, value)
+    elif k == 1:
+        p[name] = value
+    else:
+        p.add(name=name, value=value)
+
+
+def call_unpack(p, name, flag, mat):
+    k = mat.pick(3)
+    if flag and k == 0:
+        p.set_unpack_parameter(name)
+    elif k == 1:
+        p.set_unpack_parameter(name=name, unpack_bool=flag)
+    else:
+        p.set_unpack_parameter(name, flag)
+
+
 def make_params(case, mat=None):
     from pyphysim.simulations.parameters import SimulationParameters
     mat = mat or Mat(case)
+    if mat.af is not None and mat.pick(2) == 1:
+        # R8: the constructor path (create) instead of add(), unpack flags in another order
+        d = {FIXED_EXTRA: FIXED_EXTRA_VALUE}
+        for n in case['names']:
+            d[n] = mat.container(n, case['vals'][n])
+        p = SimulationParameters.create(d)
+        for n in reversed(case['names']):
+            call_unpack(p, n, True, mat)
+        return p
     p = SimulationParameters()
     p.add(FIXED_EXTRA, FIXED_EXTRA_VALUE)
+    for j in range(case.get('nfixed', 0)):          # R14: hundreds of parameters that are not unpacked
+        p.add('p%03d' % j, j if j % 3 else [j, j + 1])
     for n in case['names']:
-        p.add(n, mat.container(n, case['vals'][n]))
-        p.set_unpack_parameter(n)
+        call_add(p, n, mat.container(n, case['vals'][n]), mat)
+        call_unpack(p, n, True, mat)
     return p
 
 
@@ -614,11 +727,20 @@ def make_runner(case, mat=None, content=None, repmax=None):
             if o == 's':
                 raise SkipThisOne('scripted skip')
             r = SimulationResults()
-            r.add_new_result('sum', Result.SUMTYPE, mat.out(o))
-            r.add_new_result('ratio', Result.RATIOTYPE, abs(o) % 5, 8)
-            r.add_new_result('misc', Result.MISCTYPE, mat.out(o))
-            r.add_new_result('tok', Result.SUMTYPE, 1 << c)
-            build_extras(r, case, o)
+            adders = [lambda: r.add_new_result('sum', Result.SUMTYPE, mat.out(o)),
+                      lambda: r.add_new_result('ratio', Result.RATIOTYPE, abs(o) % 5, 8),
+                      lambda: r.add_new_result('misc', Result.MISCTYPE, mat.out(o)),
+                      lambda: r.add_new_result('tok', Result.SUMTYPE, 1 << c)]
+            if case.get('xorder') is not None:
+                sh = (case['xorder'] + c) % 4
+                adders = adders[sh:] + adders[:sh]
+                build_extras(r, case, o, mat, c)      # ... and the extra results first on these repetitions
+                for f in adders:
+                    f()
+                return r
+            for f in adders:
+                f()
+            build_extras(r, case, o, mat, c)
             return r
 
         def _keep_going(self, current_params, current_sim_results, current_rep):
@@ -638,8 +760,8 @@ def make_runner(case, mat=None, content=None, repmax=None):
     p.add(FIXED_EXTRA, FIXED_EXTRA_VALUE)
     if content is None:
         for n in case['names']:
-            p.add(n, mat.container(n, case['vals'][n]))
-            p.set_unpack_parameter(n)
+            call_add(p, n, mat.container(n, case['vals'][n]), mat)
+            call_unpack(p, n, True, mat)
     else:
         d, u = content
         for n in sorted(d):
@@ -682,10 +804,7 @@ def run_op(runner, op, tmp):
     before = observe(runner, tmp)
     status = 'ok'
     try:
-        if op == 'all':
-            runner.simulate()
-        else:
-            runner.simulate(runner.mat.index(int(op.split(':')[1])))
+        call_simulate(runner, op)
     except ScriptExhausted:
         status = 'Exhausted'
     except Exception as e:  # SkipThisOne, RuntimeError, ...
@@ -728,7 +847,7 @@ def run_impl(case, scratch):
         for fx in case['look']:
             before = observe(runner, tmp, with_store=False)
             try:
-                v = runner.results.get_result_values_list('tok', mat.fixed(fx))
+                v = call_values(runner.results, mat.fixed(fx), mat)
                 looks.append(','.join(_int(x) for x in v))
                 obs['look'].append(('ok', [int(x) for x in v]))
                 returned.append(('get_result_values_list%r' % (fx,), v, snap(v)))
@@ -750,7 +869,7 @@ def mrg_line(case):
     return 'mrg xr=%s groups=%s' % (xr_token(case), '|'.join('.'.join(str(a) for a in g) for g in case['groups']))
 
 
-def _rep_results(case, a, c):
+def _rep_results(case, a, c, mat=None):
     """the SimulationResults one repetition returns (same program as the scripted runner)"""
     from pyphysim.simulations.results import Result, SimulationResults
     r = SimulationResults()
@@ -758,7 +877,7 @@ def _rep_results(case, a, c):
     r.add_new_result('ratio', Result.RATIOTYPE, abs(a) % 5, 8)
     r.add_new_result('misc', Result.MISCTYPE, a)
     r.add_new_result('tok', Result.SUMTYPE, 1 << c)
-    build_extras(r, case, a)
+    build_extras(r, case, a, mat, c)
     return r
 
 
@@ -775,13 +894,14 @@ def run_mrg_impl(case):
     `append_all_results` (or `append_result`, one Result at a time). Operands are snapshotted (R3)."""
     from pyphysim.simulations.results import SimulationResults
     collector = SimulationResults()
+    mat = Mat(case)
     c = 0
     operands = []
     ngroups = 0
     for g in case['groups']:
         reps = []
         for a in g:
-            reps.append(_rep_results(case, a, c))
+            reps.append(_rep_results(case, a, c, mat))
             c += 1
         if not reps:
             continue
@@ -862,6 +982,8 @@ def parse_hop(op):
     ('pscalar', name, int) | ('prem', name) | ('punp', name, bool) | ('q', fixed) | ('hq', fixed)"""
     if op == 'all':
         return ('all',)
+    if op == 'nq':
+        return ('nq',)
     if op.startswith('q:') or op.startswith('hq:'):
         kind, body = op.split(':', 1)
         fx = []
@@ -927,14 +1049,14 @@ def query_params(p, res, mfx, with_results, mat):
         out['error'] = type(e).__name__
         return out
     try:
-        arr = p.get_pack_indexes(mfx)
+        arr = call_pack(p, mfx, mat)
         out['pack'] = ('ok', [int(x) for x in arr])
         out['pack_obj'] = arr
     except BaseException as e:
         out['pack'] = ('error', type(e).__name__)
     if with_results:
         try:
-            v = res.get_result_values_list('tok', mfx)
+            v = call_values(res, mfx, mat, raw_empty=True)
             out['rv'] = ('ok', [int(x) for x in v])
             out['rv_obj'] = v
         except BaseException as e:
@@ -944,6 +1066,71 @@ def query_params(p, res, mfx, with_results, mat):
 
 def _show_pack(r):
     return ','.join(str(x) for x in r[1]) if r[0] == 'ok' else 'error:' + r[1]
+
+
+def deep_observe(runner, tmp):
+    """observe() plus every observable of every stored Result of every name"""
+    o = observe(runner, tmp, with_store=False)
+    res = runner.results
+    o['allres'] = {n: [rcanon(r) for r in res[n]] for n in sorted(res.get_result_names())}
+    o['attrs'] = (runner.delete_partial_results_bool, runner.results_filename, runner.progressbar_message,
+                  runner.update_progress_function_style)
+    return o
+
+
+def nonmutating_calls(runner, tmp):
+    """R11: every public call that is not documented as a setter, on the parameters, the results, the stored
+    Result objects and the runner; returns the names of the calls after which an observable differed
+    (a call that raises, e.g. the mean of a never-updated result, must not change anything either)"""
+    import copy
+    from pyphysim.simulations.parameters import SimulationParameters
+    p, res = runner.params, runner.results
+    calls = [
+        ('repr(params)', lambda: repr(p)), ('len(params)', lambda: len(p)), ('iter(params)', lambda: list(p)),
+        ('params == copy', lambda: p == copy.deepcopy(p)), ('params != other', lambda: p != SimulationParameters()),
+        ('params == 3', lambda: p == 3), ('params.fixed_parameters', lambda: p.fixed_parameters),
+        ('params.unpacked_parameters', lambda: p.unpacked_parameters), ('params.unpack_index', lambda: p.unpack_index),
+        ('get_num_unpacked_variations', lambda: p.get_num_unpacked_variations()),
+        ('get_unpacked_params_list', lambda: p.get_unpacked_params_list()),
+        ('get_pack_indexes({})', lambda: p.get_pack_indexes({})),
+        ('get_pack_indexes(absent)', lambda: p.get_pack_indexes({n: 'no such value' for n in p.unpacked_parameters})),
+        ('params.to_dict', lambda: p.to_dict()), ('params.to_json', lambda: p.to_json()),
+        ('params[name]', lambda: [p[n] for n in list(p.parameters)]),
+        ('repr(results)', lambda: repr(res)), ('len(results)', lambda: len(res)),
+        ('results.get_result_names', lambda: res.get_result_names()), ('results.params', lambda: res.params),
+        ('results == copy', lambda: res == copy.deepcopy(res)), ('results != other', lambda: res != 3),
+        ('results.to_dict', lambda: res.to_dict()), ('results.to_json', lambda: res.to_json()),
+        ('get_result_values_list(all names)', lambda: [res.get_result_values_list(n) for n in res.get_result_names()]),
+        ('get_result_values_confidence_intervals',
+         lambda: [res.get_result_values_confidence_intervals(n, 95.0) for n in res.get_result_names()]),
+        ('repr(runner)', lambda: repr(runner)), ('runner.elapsed_time', lambda: runner.elapsed_time),
+        ('runner.runned_reps', lambda: runner.runned_reps), ('runner.results_filename', lambda: runner.results_filename),
+        ('runner.params/results', lambda: (runner.params, runner.results)),
+    ]
+    for n in res.get_result_names():
+        for r in res[n][-1:]:
+            calls += [('repr(Result %s)' % n, lambda r=r: repr(r)), ('Result.get_result %s' % n, lambda r=r: r.get_result()),
+                      ('Result.get_result_mean %s' % n, lambda r=r: r.get_result_mean()),
+                      ('Result.get_result_var %s' % n, lambda r=r: r.get_result_var()),
+                      ('Result.get_confidence_interval %s' % n, lambda r=r: r.get_confidence_interval()),
+                      ('Result == copy %s' % n, lambda r=r: r == copy.deepcopy(r)),
+                      ('Result.type_name %s' % n, lambda r=r: (r.type_name, r.type_code, r.accumulate_values_bool)),
+                      ('Result.to_dict %s' % n, lambda r=r: r.to_dict()),
+                      ('Result accumulated lists %s' % n,
+                       lambda r=r: (r.get_result_accumulated_values(), r.get_result_accumulated_totals()))]
+    bad = []
+    before = deep_observe(runner, tmp)
+    for name, f in calls:
+        try:
+            f()
+        except Exception:
+            pass
+        now = deep_observe(runner, tmp)
+        ch = diff_obs(before, now)
+        if ch:
+            bad.append((name, ch))
+            before = now
+    return bad, len(calls)
 
 
 def run_hist_impl(case, scratch):
@@ -1000,6 +1187,11 @@ def run_hist_impl(case, scratch):
                     simulated = True
                     apply_content(content, hop, repmax, file_on)
                     res_content = (copy_content(content), dict(mat.kind))
+            elif hop[0] == 'nq':
+                bad, ncalls = nonmutating_calls(runner, tmp)
+                ob['nonmutating_changed'] = bad
+                ob['ncalls'] = ncalls
+                part = 'nq=ok'
             elif hop[0] in ('rmax', 'file', 'del'):
                 if hop[0] == 'rmax':
                     repmax = hop[1]
@@ -1018,7 +1210,7 @@ def run_hist_impl(case, scratch):
                         part = 'h=-'
                     else:
                         try:
-                            v = runner.results.get_result_values_list('tok', mfx)
+                            v = call_values(runner.results, mfx, mat)
                             ans = ('ok', [int(x) for x in v])
                         except BaseException as e:
                             ans = ('error', type(e).__name__)
@@ -1086,16 +1278,16 @@ def run_hist_impl(case, scratch):
                         kind = mat.kind.get(hop[1]) if hop[1] in mat.kind and mat.new == ['list'] \
                             else mat.new_kind(nnew)
                         nnew += 1
-                        p.add(hop[1], mat.container(hop[1], hop[2], kind))
+                        call_add(p, hop[1], mat.container(hop[1], hop[2], kind), mat)
                     elif hop[0] == 'pscalar':
                         mat.kind.pop(hop[1], None)
                         mat.table.pop(hop[1], None)
                         mat.elemfn.pop(hop[1], None)
-                        p.add(hop[1], np.array(hop[2]) if case.get('zerod') else hop[2])
+                        call_add(p, hop[1], np.array(hop[2]) if case.get('zerod') else hop[2], mat)
                     elif hop[0] == 'prem':
                         p.remove(hop[1])
                     else:
-                        p.set_unpack_parameter(hop[1], hop[2])
+                        call_unpack(p, hop[1], hop[2], mat)
                 except Exception as e:
                     status = type(e).__name__
                 apply_content(content, hop)
@@ -1196,6 +1388,10 @@ def oracle_hist(case, obs):
         if ob.get('aliases_input'):
             emit(call, 'R3:output-aliases-input', '%s returned an array sharing memory with a parameter' % op)
             return out
+        if ob.get('nonmutating_changed'):
+            emit('SimulationRunner.simulate', 'R11:non-mutating-call-changed-state',
+                 'after %r: %s changed %r' % (recent, ob['nonmutating_changed'][0][0], ob['nonmutating_changed'][0][1]))
+            return out
         if k in ('padd', 'pscalar', 'prem', 'punp'):
             mutated = True
             continue
@@ -1284,7 +1480,7 @@ def content_after(names, vals, ops, repmax=1):
             repmax = hop[1]
         elif hop[0] == 'file':
             file_on = hop[1]
-        elif hop[0] not in ('q', 'hq', 'del'):
+        elif hop[0] not in ('q', 'hq', 'del', 'nq'):
             apply_content(content, hop, repmax, file_on)
     return content
 
@@ -1330,7 +1526,7 @@ def gen_hist(rng):
         elif k < 54:
             ops.append(fixed(d, u))
         elif k < 58:
-            ops.append('h' + fixed(d, u))                 # keep the results object, ask it again at the end
+            ops.append(rng.choice(['h' + fixed(d, u), 'nq']))   # keep the results object / non-mutating calls
         elif k < 62:
             ops.append(rng.choice(['rmax:%d' % rng.randint(1, 3), 'pscalar:rep_max:%d' % rng.randint(1, 5),
                                    'single:0', 'prem:rep_max']))
@@ -1413,7 +1609,7 @@ def gen_hist2(rng):
         elif k < 92:
             ops.append(fixed())
         elif k < 96:
-            ops.append('h' + fixed())
+            ops.append(rng.choice(['h' + fixed(), 'nq']))
         else:
             ops.append(rng.choice(['prem:nope', 'punp:nope:1', 'prem:rep_max']))
     if 'all' not in ops:
@@ -1430,8 +1626,10 @@ def gen_hist2(rng):
 
 
 def gen_rcase(rng, rclass):
-    """R1 / R2 / R5 / R6: the same LOGICAL scenario handed over in another element type, memory layout /
-    shape, at the boundary values, or scaled; the model line (base integers) does not change"""
+    """R1 / R2 / R5 / R6 / R8 / R9 / R10 / R12: the same LOGICAL scenario handed over in another element
+    type, memory layout / shape, at the boundary values, scaled, through other argument forms, with other
+    index types, with heterogeneous collections, in another insertion order; the model line (base integers)
+    does not change"""
     kindsel = rng.below(3)
     c = gen_hist(rng) if kindsel == 0 else gen_case(rng) if kindsel == 1 else None
     if c is None:
@@ -1520,6 +1718,41 @@ def gen_rcase(rng, rclass):
         mat['new'] = [kind]
         mat['fixed'] = rng.choice(['same', 'pyfloat', 'np.float64'])
         mat['outs'] = rng.choice(['p2:40', 'p2:-40', 'dec:1e12', 'dec:1e-12', 'dec:1e9', 'dec:1e-9', 'p2:100'])
+    elif rclass == 'R8':
+        # argument forms: positional / keyword / default / explicit default, constructor vs setter path
+        c['argform'] = 1 + rng.below(1 << 30)
+        if c['kind'] != 'grid' and not c.get('xr'):
+            c['xr'] = gen_xr(rng)
+    elif rclass == 'R9':
+        # index / count arguments in every integer type (a 0-d array, a bool where it means 0 / 1)
+        mat['index'] = rng.choice(['np.int8', 'np.uint8', 'np.int16', 'np.uint16', 'np.int32', 'np.uint32',
+                                   'np.int64', 'np.uint64', 'np.intp', '0d', 'bool', 'str'])
+        mat['repmax'] = rng.choice(['np.int8', 'np.uint8', 'np.uint16', 'np.int32', 'np.int64', 'np.intp', 'int'])
+        c['xtype'] = rng.choice(['np.int64', 'np.int16'])
+        if c['kind'] == 'sim':
+            nvar = 1
+            for nm in c['names']:
+                nvar *= len(c['vals'][nm])
+            c['file'] = True
+            c['ops'] = ['single:%d' % rng.randint(0, max(nvar - 1, 0)), rng.choice(['all', 'single:0']),
+                        'single:%d' % rng.randint(-1, nvar)]
+        if c['kind'] != 'grid' and not c.get('xr'):
+            c['xr'] = ['C1:2:ctor', 'C0:1:create']
+    elif rclass == 'R10':
+        # heterogeneous collections: elements of different types in one value list, repetitions returning
+        # ints, floats and numpy scalars in turn (halves: nothing may be truncated to the first type)
+        mat['params'] = {nm: rng.choice(['mixed', 'mixedtuple', 'mixed']) for nm in c['names']}
+        mat['new'] = ['mixed', 'list', 'mixedtuple']
+        mat['fixed'] = rng.choice(['same', 'pyfloat', 'pyint', 'np.float64'])
+        mat['outs'] = 'mixhalf'
+    elif rclass == 'R12':
+        # insertion order: results added in another order in every repetition, parameters and unpack flags
+        # set in another order, fixed values listed in another order
+        c['xorder'] = rng.below(1 << 20)
+        c['argform'] = 1 + rng.below(1 << 30)
+        if c['kind'] != 'grid':
+            c['xr'] = ['M1:1:ctor', 'M1:2:ctor', 'M0:1:ctor', 'S1:1:ctor', 'S1:2:ctor', 'R1:1:ctor', 'R1:2:ctor',
+                       'C1:1:ctor', 'C1:2:ctor'][:rng.randint(3, 9)]
     if c['kind'] == 'grid':
         mat.pop('outs', None)
         mat.pop('repmax', None)
@@ -1552,10 +1785,69 @@ def gen_rcase(rng, rclass):
     return c
 
 
+def derived_objects_check(case, mat, p, lst, names):
+    """R13: the variations obtained from a parameters object are independent values: round trips give the
+    child back, changing a child does not change the parent, changing the parent afterwards does not change
+    what a child carries"""
+    import pickle
+    from pyphysim.simulations.parameters import SimulationParameters
+    bad = []
+
+    def vals_of(c):
+        return [mat.canon(n, c[n]) for n in names]
+
+    def combos_of(pp):
+        return [[mat.canon(n, c[n]) for n in names] for c in pp.get_unpacked_params_list()]
+    ch = lst[-1]
+    want = (vals_of(ch), ch.unpack_index)
+    trips = [('pickle', lambda c: pickle.loads(pickle.dumps(c))),
+             ('to_dict/from_dict', lambda c: SimulationParameters.from_dict(c.to_dict()))]
+    if all(mat.kind.get(n, 'list') in ('list', 'tuple', 'floatlist') for n in names):
+        trips.append(('to_json/from_json', lambda c: SimulationParameters.from_json(c.to_json())))
+    for name, f in trips:
+        try:
+            c2 = f(ch)
+            if (vals_of(c2), c2.unpack_index) != want or not (c2 == ch) or \
+                    sorted(c2.parameters) != sorted(ch.parameters):
+                bad.append('round trip %s of a variation gives %r, the variation is %r'
+                           % (name, (vals_of(c2), c2.unpack_index), want))
+        except Exception as e:
+            bad.append('round trip %s of a variation raises %s' % (name, type(e).__name__))
+    # a copy of the parent is a parent
+    try:
+        import copy
+        pc = copy.deepcopy(p)
+        if combos_of(pc) != combos_of(p) or not (pc == p):
+            bad.append('deep copy of the parameters differs')
+    except Exception as e:
+        bad.append('deep copy raises %s' % type(e).__name__)
+    # child changed -> parent unchanged
+    before = (snap(dict(p.parameters)), sorted(p._unpacked_parameters_set), combos_of(p))
+    victim = lst[0]
+    victim.add('zz_new', 1)
+    victim.parameters[names[0]] = 'changed'
+    for k2, v2 in list(victim.parameters.items()):
+        if isinstance(v2, list):
+            v2.append(12345)
+    if before != (snap(dict(p.parameters)), sorted(p._unpacked_parameters_set), combos_of(p)):
+        bad.append('changing a variation changed the parameters object it came from')
+    # parent changed afterwards -> the other children keep their values
+    keep = lst[-1]
+    kv = vals_of(keep)
+    nm = names[0]
+    newv = list(case['vals'][nm])[::-1] + [77]
+    p.add(nm, newv)
+    if vals_of(keep) != kv:
+        bad.append('changing the parameters object changed a variation derived earlier')
+    p.add(nm, mat.container(nm, case['vals'][nm], mat.kind.get(nm)))
+    return bad
+
+
 def run_grid_impl(case):
     np = _np()
     mat = Mat(case)
     p = make_params(case, mat)
+    p.add('fxl0', [1, 2])          # a list-valued parameter that is not unpacked (R13: deep copies)
     names = sorted(case['names'])
     lst = p.get_unpacked_params_list()
     combos = [[mat.canon(n, c[n]) for n in names] for c in lst]
@@ -1566,7 +1858,7 @@ def run_grid_impl(case):
     returned = []
     for fx in case['look']:
         try:
-            v = p.get_pack_indexes(mat.fixed(fx))
+            v = call_pack(p, mat.fixed(fx), mat)
             packs.append(','.join(str(int(x)) for x in v))
             obs['pack'].append(('ok', [int(x) for x in v]))
             returned.append(('get_pack_indexes%r' % (fx,), v, snap(v)))
@@ -1583,6 +1875,7 @@ def run_grid_impl(case):
     if lst and case['names']:
         ch = lst[0]
         obs['child_shares_dict'] = ch.parameters is p.parameters
+        obs['r13'] = derived_objects_check(case, mat, p, lst, names)
     s = 'order=%s n=%d nc=%d combos=%s pack=%s' % (
         ','.join(p.unpacked_parameters), obs['n'], len(lst),
         '|'.join('.'.join(str(v) for v in c) for c in combos), '/'.join(packs))
@@ -1867,6 +2160,9 @@ def _oracle_grid(case, obs):
                     '%r' % obs['returned_changed'][:3]))
     if obs.get('aliases_input'):
         out.append(('SimulationParameters.get_pack_indexes', 'R3:output-aliases-input', '%r' % obs['aliases_input'][:2]))
+    for msg in obs.get('r13') or []:
+        out.append(('SimulationParameters.get_unpacked_params_list', 'R13:derived-object', msg))
+        break
     if obs.get('child_shares_dict'):
         out.append(('SimulationParameters.get_unpacked_params_list', 'R3:output-aliases-input',
                     'a variation shares the parameters dictionary of its parent'))
@@ -2159,6 +2455,8 @@ def run_cases(ctx, cases, name='simulate'):
                         ctx.branch('R4:rejected-call-checked')
                     if k == 'q':
                         ctx.branch('R7:lookup-vs-fresh-object')
+                    if k == 'nq':
+                        ctx.branch('R11:non-mutating-calls-checked')
                 if obs.get('held'):
                     ctx.branch('R3:held-results-requeried')
                 ctx.branch('R3:snapshots-compared')
@@ -2194,6 +2492,14 @@ def run_cases(ctx, cases, name='simulate'):
                 ctx.branch('%s:%s' % (c['rclass'], c['kind']))
                 for bit in mat_desc(c).split(','):
                     ctx.branch('%s:%s' % (c['rclass'], bit.split('=')[0] if '=' in bit else bit.split(':')[0]))
+                if c.get('argform') is not None:
+                    ctx.branch('R8:argument-forms')
+                if c.get('xorder') is not None:
+                    ctx.branch('R12:insertion-order')
+                if c['rclass'] == 'R9' and (c.get('mat') or {}).get('index'):
+                    ctx.branch('R9:index=' + c['mat']['index'])
+            if c['kind'] == 'grid' and obs.get('r13') is not None:
+                ctx.branch('R13:derived-objects-checked')
             seen = set()
             for call, cls, detail in viols:
                 if (call, cls) not in seen:
@@ -2229,6 +2535,39 @@ def corpus_cases():
             if fn.endswith('.json'):
                 with open(os.path.join(d, fn)) as f:
                     out.append(json.load(f)['case'])
+    return out
+
+
+def big_cases(quick):
+    """R14: counts of 257 / 258 / 300 (and 2^16 + 1 in thorough): variations, extra results, parameters,
+    repetitions; indexes above 256"""
+    out = []
+    a300 = list(range(300))
+    out.append(dict(kind='sim', rclass='R14', names=['a'], vals={'a': a300}, repmax=1, file=True, keep=['always'],
+                    ops=['all', 'single:257', 'single:299', 'single:300'], outs=[1, 2, 's', 3] * 110,
+                    look=[[('a', 257)], [('a', 299)], [('a', 0)], [('a', 300)]], xr=['M1:1:ctor', 'S1:1:create'],
+                    mat={'index': 'np.int16'}))
+    out.append(dict(kind='sim', rclass='R14', names=['b', 'a'], vals={'a': list(range(17)), 'b': list(range(100, 116))},
+                    repmax=1, file=False, keep=['always'], ops=['all'], outs=[2] * 280,
+                    look=[[('a', 16)], [('b', 115), ('a', 16)], [('b', 100)]], xr=[]))
+    out.append(dict(kind='sim', rclass='R14', names=[], vals={}, repmax=300, file=False, keep=['always'], ops=['all'],
+                    outs=([1, 's', 2, 3] * 120), look=[], xr=['M1:1:ctor', 'C1:1:ctor'], mat={'repmax': 'np.int16'}))
+    many = ['%s%d:1:ctor' % (XTYPES[j % 4], j % 2) for j in range(258)]
+    out.append(dict(kind='mrg', rclass='R14', xr=many, groups=[[1, 2, 3], [4, 5]], start='empty', append='all',
+                    xorder=5))
+    out.append(dict(kind='sim', rclass='R14', names=['a'], vals={'a': [1, 2]}, repmax=2, file=False, keep=['always'],
+                    ops=['all'], outs=[1, 2, 3, 4, 5], look=[], xr=many, xorder=3))
+    out.append(dict(kind='grid', rclass='R14', names=['c', 'a', 'b'], nfixed=258,
+                    vals={'a': list(range(7)), 'b': list(range(10, 17)), 'c': list(range(20, 27))},
+                    look=[[('a', 6), ('b', 16)], [('c', 26)], [('a', 6), ('b', 16), ('c', 26)], [('p007', 7)]]))
+    if not quick:
+        big = list(range(65537))
+        out.append(dict(kind='grid', rclass='R14', names=['a'], vals={'a': big},
+                        look=[[('a', 65536)], [('a', 257)], [('a', 65537)]]))
+        out.append(dict(kind='grid', rclass='R14', names=['b', 'a'], vals={'a': list(range(258)), 'b': list(range(257))},
+                        look=[[('a', 257)], [('b', 256)], [('a', 257), ('b', 256)]]))
+        out.append(dict(kind='sim', rclass='R14', names=['a'], vals={'a': list(range(450))}, repmax=1, file=False,
+                        keep=['always'], ops=['all'], outs=[1] * 460, look=[[('a', 449)], [('a', 256)]], xr=[]))
     return out
 
 
@@ -2308,6 +2647,12 @@ def check(ctx):
                              'R7:fresh-runner-twin', 'R7:simulate-after-rep_max-change',
                              'R7:rep_max-entry-in-params-differs', 'R7:delete-partial-results',
                              'R7:lookup-vs-fresh-object',
+                             'R8', 'R8:sim', 'R8:grid', 'R8:hist', 'R8:argument-forms', 'R9', 'R9:sim', 'R9:hist',
+                             'R9:index=np.int8', 'R9:index=np.uint8', 'R9:index=np.uint16', 'R9:index=np.int32',
+                             'R9:index=np.uint64', 'R9:index=np.intp', 'R9:index=0d', 'R9:index=bool',
+                             'R10', 'R10:mixed', 'R10:outs', 'R11:non-mutating-calls-checked', 'R12',
+                             'R12:insertion-order', 'R13:derived-objects-checked', 'R14', 'R14:sim', 'R14:grid',
+                             'R14:mrg',
                              'mrg', 'mrg:start=empty', 'mrg:start=first', 'mrg:start=result', 'mrg:append=all',
                              'mrg:append=result', 'xr:in-sim', 'xr:in-hist', 'xr:S0', 'xr:S1', 'xr:R0', 'xr:R1',
                              'xr:M0', 'xr:M1', 'xr:C0', 'xr:C1', 'xr:form=ctor', 'xr:form=create',
@@ -2323,7 +2668,10 @@ def check(ctx):
     cases += [gen_mrg(mrng) for _ in range(1500 if quick else 30000)]
     rrng = ctx.rng.fork('robust')
     for rc in ('R1', 'R2', 'R5', 'R6'):
-        cases += [gen_rcase(rrng, rc) for _ in range(250 if quick else 2000)]
+        cases += [gen_rcase(rrng, rc) for _ in range(200 if quick else 2000)]
+    for rc in ('R8', 'R9', 'R10', 'R12'):
+        cases += [gen_rcase(rrng, rc) for _ in range(150 if quick else 1500)]
+    cases += big_cases(quick)
     if quick:
         cases += exhaustive_cases(4, (1, 2))
     else:
